@@ -7,29 +7,39 @@ Open Scope Z_scope.
    and is contained in every range that does (any number of points) *)
 Theorem C04_box : forall idxs keepdims len x, idxs <> [] -> Forall (fun i => 0 <= i < len) idxs ->
   let lo := zmin_l (tl idxs) (hd 0 idxs) in let hi := zmax_l (tl idxs) (hd 0 idxs) in
-  (selects len (axis_item idxs keepdims) x <-> lo <= x <= hi) /\ In lo idxs /\ In hi idxs.
+  (selects len (axis_item len idxs keepdims) x <-> lo <= x <= hi) /\ In lo idxs /\ In hi idxs.
 Proof. exact axis_item_box. Qed.
 Print Assumptions C04_box.
 
 (* keepdims changes only whether length-1 axes are kept *)
 Theorem C04_keepdims : forall idxs len x, idxs <> [] -> Forall (fun i => 0 <= i < len) idxs ->
-  (selects len (axis_item idxs true) x <-> selects len (axis_item idxs false) x).
+  (selects len (axis_item len idxs true) x <-> selects len (axis_item len idxs false) x).
 Proof. exact axis_item_keepdims. Qed.
 Print Assumptions C04_keepdims.
 
 (* points off the array never silently yield a region that excludes an on-array point *)
 Theorem C04_on_array : forall idxs keepdims len k, In k idxs -> 0 <= k < len ->
-  selects len (axis_item idxs keepdims) k.
+  selects len (axis_item len idxs keepdims) k.
 Proof. exact axis_item_on_array. Qed.
 Print Assumptions C04_on_array.
 
+(* with points off the array too (one of them on it): the region stays on the array, and without keepdims an axis
+   survives as a slice only when its region is longer than one element - at the high edge as at the low edge *)
+Theorem C04_clipped : forall idxs len k, In k idxs -> 0 <= k < len ->
+  match axis_item len idxs false with
+  | IInt i => 0 <= i < len
+  | ISlice (Some lo) (Some hi) None => 0 <= lo /\ hi <= len /\ hi - lo >= 2
+  | _ => False
+  end.
+Proof. exact axis_item_clipped. Qed.
+Print Assumptions C04_clipped.
 (* axes whose coordinates are all None are left whole; a one-element result without keepdims is refused *)
-Theorem C04_untouched : forall keepdims, axis_item [] keepdims = full_slice.
+Theorem C04_untouched : forall len keepdims, axis_item len [] keepdims = full_slice.
 Proof. exact axis_item_untouched. Qed.
 Print Assumptions C04_untouched.
 
-Theorem C04_item : forall per_axis keepdims its, crop_item per_axis keepdims = Ok its ->
-  its = map (fun idxs => axis_item idxs keepdims) per_axis /\
+Theorem C04_item : forall shape per_axis keepdims its, crop_item shape per_axis keepdims = Ok its ->
+  its = map (fun '(len, idxs) => axis_item len idxs keepdims) (combine shape per_axis) /\
   (its = [] \/ exists it, In it its /\ is_int it = false).
 Proof. exact crop_item_spec. Qed.
 Print Assumptions C04_item.
@@ -40,8 +50,9 @@ Proof. exact round_half_up_spec. Qed.
 Print Assumptions C04_rounding.
 
 Example C04_nonvacuous :
-  crop_item [[3; 1; 2]; []; [4]] false = Ok [ISlice (Some 1) (Some 4) None; full_slice; IInt 4]
-  /\ crop_item [[2]; [0]] false = Err EValue
-  /\ crop_item [[-1; 3]] false = Ok [ISlice (Some 0) (Some 4) None]
+  crop_item [6; 6; 6] [[3; 1; 2]; []; [4]] false = Ok [ISlice (Some 1) (Some 4) None; full_slice; IInt 4]
+  /\ crop_item [6; 6] [[2]; [0]] false = Err EValue
+  /\ crop_item [6] [[-1; 3]] false = Ok [ISlice (Some 0) (Some 4) None]
+  /\ crop_item [6; 3] [[6; 5]; []] false = Ok [IInt 5; full_slice]
   /\ round_half_up (3 # 2) = 2 /\ round_half_up (-(1 # 2)) = 0.
 Proof. vm_compute. repeat split. Qed.
